@@ -441,3 +441,33 @@ func (c *Ctx) funcValueTargets(v ssa.Value, depth int) []*ssa.Function {
 	}
 	return nil
 }
+
+// addressTaken: f is used somewhere in the module as a value (stored, passed, bound as a method value) rather
+// than only as the target of a direct call, so its static call sites are not all of its callers.
+func (c *Ctx) addressTaken(f *ssa.Function) bool {
+	if c.taken == nil {
+		c.taken = map[*ssa.Function]bool{}
+		for _, g := range c.P.ModuleFuncs() {
+			flow.Instrs(g, func(in ssa.Instruction) {
+				var callee ssa.Value
+				if ci, ok := in.(ssa.CallInstruction); ok && !ci.Common().IsInvoke() {
+					callee = ci.Common().Value
+				}
+				for _, op := range in.Operands(nil) {
+					if op == nil || *op == nil {
+						continue
+					}
+					h, ok := (*op).(*ssa.Function)
+					if !ok {
+						continue
+					}
+					if *op == callee && op == &in.(ssa.CallInstruction).Common().Value {
+						continue
+					}
+					c.taken[h] = true
+				}
+			})
+		}
+	}
+	return c.taken[f]
+}
